@@ -986,5 +986,76 @@ def no_stale(ctx):
                        'the intersection / normal no longer belongs to the current prescription', min_methods=10)
 
 
-RULES = [no_stale, snell_law, reflect_law, align_normal, on_surface, normal_gradient,
+RECORD_MAP = {'x': 'x', 'y': 'y', 'z': 'z', 'L': 'L', 'M': 'M', 'N': 'N',
+              'intensity': 'i', 'opd': 'opd', 'u': 'u'}
+
+
+def records(ctx):
+    P = ctx.P
+    res = Result('RECORDS', 'each surface record holds the same-named ray '
+                 'quantity; the per-lens record arrays list every surface in '
+                 'order; the object surface records the launched rays')
+    f = P.func('Surface._record')
+    res.saw(f)
+    n = 0
+    for s_ in ast.walk(f.node):
+        if isinstance(s_, ast.Assign) and isinstance(s_.targets[0], ast.Attribute)\
+                and isinstance(s_.targets[0].value, ast.Name) and \
+                s_.targets[0].value.id == 'self':
+            attr = s_.targets[0].attr
+            src = [x for x in ast.walk(s_.value) if isinstance(x, ast.Attribute)
+                   and isinstance(x.value, ast.Name) and x.value.id == 'rays']
+            if attr in RECORD_MAP and len(src) == 1:
+                n += 1
+                if src[0].attr == RECORD_MAP[attr]:
+                    res.ok(f'_record: self.{attr} <- rays.{src[0].attr}')
+                else:
+                    res.fail(ctx.finding(
+                        'RECORDS', f, s_,
+                        f'the {attr} record is filled from rays.{src[0].attr} '
+                        f'instead of rays.{RECORD_MAP[attr]}',
+                        construct=f'record {attr} source'))
+    if n < 9:
+        res.fail(ctx.finding('RECORDS', f, f.node,
+                             f'only {n} of the record attributes are stored',
+                             construct='record coverage'))
+    from ..match import find
+    g = P.classes['SurfaceGroup']
+    for attr in ('x', 'y', 'z', 'L', 'M', 'N', 'opd', 'u', 'intensity'):
+        pr = g.props.get(attr)
+        if pr is None:
+            raise AnalysisError(f'SurfaceGroup.{attr} not found')
+        res.saw(pr)
+        pat = (f'np.array([$s.{attr} for $s in self.surfaces '
+               f'if $s.{attr}.size > 0])')
+        if find(pr, pat):
+            res.ok(f'SurfaceGroup.{attr}: every surface, in order')
+        else:
+            res.fail(ctx.finding(
+                'RECORDS', pr, pr.node,
+                f'SurfaceGroup.{attr} is not the list of the {attr} records '
+                f'of all surfaces in order: record index k no longer means '
+                f'surface k', construct=f'SurfaceGroup.{attr} accessor'))
+    o = P.func('ObjectSurface.trace')
+    res.saw(o)
+    ok = False
+    for p_ in annotate(P, o, paths(o)):
+        seq = [call_attr(e) for e in p_.events if e.kind == 'call']
+        ok = 'reset' in seq and '_record' in seq and \
+            seq.index('reset') < seq.index('_record') and p_.exit == 'return'
+        if not ok:
+            break
+    rets = [r_ for r_ in ast.walk(o.node) if isinstance(r_, ast.Return)]
+    if ok and rets and unparse(rets[0].value) == 'rays':
+        res.ok('ObjectSurface.trace: reset, record the launched rays, return '
+               'them unchanged')
+    else:
+        res.fail(ctx.finding('RECORDS', o, o.node,
+                             'the object surface does not record the launched '
+                             'rays (record index 0 is the launch state)',
+                             construct='ObjectSurface.trace record'))
+    return res
+
+
+RULES = [no_stale, records, snell_law, reflect_law, align_normal, on_surface, normal_gradient,
          frames, trace_order, same_medium, nonfinite]
